@@ -11,6 +11,7 @@ import (
 	"sort"
 	"strings"
 	"sync"
+	"sync/atomic"
 	"testing"
 	"time"
 
@@ -583,6 +584,7 @@ func runConc(tb ev.TB, c concCase) {
 	var wg sync.WaitGroup
 	var mu sync.Mutex
 	var bad string
+	var progress atomic.Int64
 	report := func(s string) {
 		mu.Lock()
 		if bad == "" {
@@ -597,6 +599,7 @@ func runConc(tb ev.TB, c concCase) {
 			for r := 0; r < c.Rounds; r++ {
 				conn.Seek(0, kafka.SeekStart)
 				m, err := conn.ReadMessage(1 << 20)
+				progress.Add(1)
 				if errors.Is(err, io.ErrNoProgress) {
 					report(fmt.Sprintf("ReadMessage failed with %v", err))
 					return
@@ -614,6 +617,7 @@ func runConc(tb ev.TB, c concCase) {
 			defer wg.Done()
 			for r := 0; r < c.Rounds; r++ {
 				got, err := other.Run(a, conn)
+				progress.Add(1)
 				if errors.Is(err, io.ErrNoProgress) {
 					report(fmt.Sprintf("%s failed with %v", c.Other, err))
 					return
@@ -627,17 +631,40 @@ func runConc(tb ev.TB, c concCase) {
 	}
 	done := make(chan struct{})
 	go func() { wg.Wait(); close(done) }()
-	select {
-	case <-done:
-	case <-time.After(30 * time.Second):
-		// calls that wait for a response whose header never matches spin without touching the network: the deadline of the
-		// Conn cannot end them, closing it does
+	// calls that wait for a response whose header never matches spin without touching the network: the deadline of the
+	// Conn cannot end them, closing it does.  Decided by progress (no call returning during 15 s, more than 30 s after the
+	// start), not by the clock alone: the machine may be saturated.
+	started := time.Now()
+	last, still := int64(-1), 0
+watch:
+	for {
+		select {
+		case <-done:
+			break watch
+		case <-time.After(5 * time.Second):
+		}
+		cur := progress.Load()
+		if cur == last {
+			still++
+		} else {
+			still = 0
+		}
+		last = cur
+		stuck := time.Since(started) > 30*time.Second && still >= 3
+		if !stuck && time.Since(started) < 15*time.Minute {
+			continue
+		}
 		conn.Close()
 		select {
 		case <-done:
 		case <-time.After(10 * time.Second):
 		}
-		report("some calls had not returned 30 s after the start although the Conn has a deadline of 8 s")
+		if !stuck {
+			ev.Inconclusive("concurrent_slow_machine")
+			return
+		}
+		report(fmt.Sprintf("some calls had not returned %v after the start and none returned during the last 15 s, although the Conn has a deadline of 8 s", time.Since(started).Round(time.Second)))
+		break
 	}
 	if bad != "" {
 		ev.Fail(tb, "conc", "c11/concurrent-misaligned/"+c.Other, c, "%d goroutines reading single messages and %d repeating %s on one Conn, nothing injected by the broker: %s", c.Readers, c.Others, c.Other, bad)
